@@ -161,7 +161,7 @@ func ruleC07R2(r *Run) {
 				ndel++
 				c := a.Ins.(*ssa.Call)
 				key := c.Call.Args[1]
-				leaves := p.Leaves(key, provOpts{})
+				leaves := p.Leaves(key, provOpts{ParamDepth: 2})
 				isAliasTable := strings.HasSuffix(fk, ".aliases")
 				var bad []string
 				if isAliasTable {
@@ -182,7 +182,7 @@ func ruleC07R2(r *Run) {
 						kv = ex.Tuple
 					}
 					if l, ok := kv.(*ssa.Lookup); ok {
-						idLeaves = p.Leaves(l.Index, provOpts{})
+						idLeaves = p.Leaves(l.Index, provOpts{ParamDepth: 2})
 					}
 				}
 				if !hasLeafPrefix(idLeaves, "field:/message.") || !strings.HasSuffix(strings.Join(idLeaves, " "), "") {
